@@ -150,6 +150,27 @@ pub fn run(opts: &HashMap<String, String>) -> i32 {
             }
         }
     }
+    // 4. sign-like and neighbouring lead bytes in front of digits: only '-' is a sign, and only for the signed scanners
+    for lead in [b'+', b'-', b',', b'.', b'/', b':', b' ', 0xad, 0xab, 0x2d ^ 0x80, b'0' - 1, b'9' + 1] {
+        for digits in ["", "0", "5", "15", "007", "1234567", "12345678", "123456789"] {
+            for second in [None, Some(b'-'), Some(b'+')] {
+                for f in ["ascii_digits", "ascii_digits_multi", "signed_ascii_digits", "signed_ascii_digits_multi"] {
+                    for pre_full in [true, false] {
+                        let mut v: Vec<u8> = vec![lead];
+                        if let Some(b) = second {
+                            v.push(b);
+                        }
+                        v.extend_from_slice(digits.as_bytes());
+                        v.push(b' ');
+                        v.extend_from_slice(b"12345678");
+                        let ty = ["u8", "i8", "i32", "u64", "i64", "isize"][rng.gen_range(0..6)];
+                        let pre = if pre_full { v.len() } else { 0 };
+                        emit(&v, f, ty, 0, pre, &mut emitted, &mut idx);
+                    }
+                }
+            }
+        }
+    }
     let _ = trace::close();
     println!("{{\"vectors\":{emitted}}}");
     0
